@@ -26,6 +26,8 @@ def Mutation.target : Mutation → Option Observable
   | .listInsert c _ _ => some (.cont c)
   | .listDel c _ => some (.cont c)
   | .listSet c _ _ => some (.cont c)
+  | .listSlice c _ _ _ => some (.cont c)
+  | .listStride c _ _ _ => some (.cont c)
   | .listClear c => some (.cont c)
   | .listExtend c _ => some (.cont c)
   | .dictSet c _ _ => some (.cont c)
@@ -190,6 +192,20 @@ theorem mutate_delivered (E : Env) (st : St) (m : Mutation) :
       · simp [skip] at hd
     · simp [skip] at hd
   | listSet c i x =>
+    simp only [mutate] at hd
+    split at hd
+    · split at hd
+      · exact ⟨by rw [(runCont_delivered E st _ c _ d hd).1]; rfl, (runCont_delivered E st _ c _ d hd).2⟩
+      · simp [skip] at hd
+    · simp [skip] at hd
+  | listSlice c i j xs =>
+    simp only [mutate] at hd
+    split at hd
+    · split at hd
+      · exact ⟨by rw [(runCont_delivered E st _ c _ d hd).1]; rfl, (runCont_delivered E st _ c _ d hd).2⟩
+      · simp [skip] at hd
+    · simp [skip] at hd
+  | listStride c i step xs =>
     simp only [mutate] at hd
     split at hd
     · split at hd
@@ -395,6 +411,18 @@ theorem mutate_allDead (E : Env) (st : St) (m : Mutation) (hall : ∀ o, AllDead
       · simp [skip]
     · simp [skip]
   | listSet c i x =>
+    simp only [mutate]; split
+    · split
+      · rw [runCont_allDead E st _ c _ hall]; simp
+      · simp [skip]
+    · simp [skip]
+  | listSlice c i j xs =>
+    simp only [mutate]; split
+    · split
+      · rw [runCont_allDead E st _ c _ hall]; simp
+      · simp [skip]
+    · simp [skip]
+  | listStride c i step xs =>
     simp only [mutate]; split
     · split
       · rw [runCont_allDead E st _ c _ hall]; simp
